@@ -186,6 +186,10 @@ func genC05(tier string, seed uint64, emit func(string)) {
 			emit(serveLine("-", [][]byte{requestBytes(t.argv(), nil)}, script, floatTable(t.argv()), "x "+t.expected))
 		}
 	}
+	// commands keep reaching the handler after a request crashed inside the framework on another connection
+	for _, cmd := range []string{"INCR", "ZREVRANGE"} {
+		emit(fmt.Sprintf("panicw %d %s", 1+r.Intn(2), cmd))
+	}
 	// wide requests: list arguments around the sizes of internal buffers and tables
 	for _, n := range []int{255, 256, 257, 1023, 1024, 1025, 5000} {
 		for _, cmd := range []string{"DEL", "EXISTS", "RPUSH", "LPUSH", "SADD", "SREM", "HDEL", "ZREM"} {
@@ -418,6 +422,12 @@ func (p *pipeline) expectedServed() int {
 
 func genC03(tier string, seed uint64, emit func(string)) {
 	r := NewRng(seed)
+	// a neighbour connection that stops reading its replies must not keep this connection from being answered
+	for _, store := range []string{"double", "example"} {
+		for stalled := 1; stalled <= 2; stalled++ {
+			emit(fmt.Sprintf("stallw %s %d %d", store, stalled, 1+r.Intn(40)))
+		}
+	}
 	n := 700
 	if tier == "thorough" {
 		n = 40000
@@ -442,8 +452,14 @@ func genC03(tier string, seed uint64, emit func(string)) {
 			ends = append(ends, strconv.Itoa(off))
 		}
 		extra := fmt.Sprintf("served %d ends %s", p.expectedServed(), strings.Join(ends, " "))
+		// a quarter of the pipelines run against a handler that keeps its reply objects and hands the same object out
+		// again (whatever a command does with a reply must not change what the next command gets)
+		cfg3 := "blk"
+		if r.Chance(1, 4) {
+			cfg3 = "blk memo"
+		}
 		for _, segs := range p.chunkings(r) {
-			emit(serveLine("blk", segs, script, floatTable(p.argvs...), extra))
+			emit(serveLine(cfg3, segs, script, floatTable(p.argvs...), extra))
 		}
 	}
 }
@@ -502,6 +518,15 @@ func genC04(tier string, seed uint64, emit func(string)) {
 	r := NewRng(seed)
 	// several connections with large array replies and slow readers: every connection must still receive exactly its
 	// own well-formed replies
+	// composed readers twice in a row over a handler that keeps its reply objects
+	for _, seq := range [][][]string{{{"SMEMBERS", "k"}, {"SISMEMBER", "k", "b"}, {"SMEMBERS", "k"}, {"SCARD", "k"}, {"SCARD", "k"}},
+		{{"HKEYS", "h"}, {"HVALS", "h"}, {"HLEN", "h"}, {"HGETALL", "h"}, {"HKEYS", "h"}}, {{"ZCARD", "z"}, {"ZCARD", "z"}, {"ZRANGE", "z", "0", "-1"}, {"ZREVRANGE", "z", "0", "-1"}, {"ZREVRANGE", "z", "0", "-1"}}} {
+		var b []byte
+		for _, argv := range seq {
+			b = append(b, reqS(argv...)...)
+		}
+		emit(serveLine("memo", [][]byte{b}, "r a4 b:61 b:62 b:63 b:64", "", ""))
+	}
 	// a reader that pauses in the middle of a large reply for longer than any plausible write timeout, with further
 	// requests already pipelined: what it finally receives must still be complete frames
 	pauses := 1
@@ -559,6 +584,8 @@ func genC04(tier string, seed uint64, emit func(string)) {
 		cfg := "-"
 		if r.Chance(1, 10) {
 			cfg = "nohandler"
+		} else if r.Chance(1, 4) {
+			cfg = "memo"
 		}
 		emit(serveLine(cfg, [][]byte{stream}, genScript(r, 1+r.Intn(4), true), floatTable(argvs...), ""))
 	}
@@ -593,6 +620,15 @@ func genC07(tier string, seed uint64, emit func(string)) {
 	hostile := []string{"*0\r\n", "*1\r\n$-1\r\n", "*1\r\n*0\r\n", "*-1\r\n", "+PING\r\n", ":1\r\n", "$-1\r\n", "-ERR\r\n", "*1\r\n*1\r\n*1\r\n*0\r\n"}
 	for _, h := range hostile {
 		emit(serveLine("-", [][]byte{append([]byte(h), reqS("PING")...)}, "r s:4f4b", "", ""))
+	}
+	// a request that crashes inside the framework (a handler answering nil, nil to a composed command) ends its own
+	// connection only: connections opened before and after it are served
+	for _, cmd := range []string{"INCR", "APPEND", "ZREVRANGE", "STRLEN"} {
+		emit(fmt.Sprintf("panicw %d %s", 1+r.Intn(3), cmd))
+	}
+	// several connections with large replies and slow readers: every connection keeps receiving exactly its own replies
+	for i := 0; i < 4; i++ {
+		genConc4(r, emit)
 	}
 	// many clients going away at the same instant (every connection goroutine unregisters itself at that moment)
 	for _, n := range []int{50, 200} {
